@@ -17,6 +17,8 @@ enum Op {
     Relax(u64, String, BTreeMap<String, String>),
     Restore(u64),
     Evaluate,
+    /// the same question through evaluate_samples: three states under four sample ids
+    EvaluateSamples,
 }
 
 /// executable model: id -> (constraint, Some(reason, params) if removed)
@@ -56,7 +58,7 @@ impl Property for C14 {
         }
     }
     fn rule(&self) -> &'static str {
-        "each case: a generated valid instance with 1-7 constraints spread over the active and removed lists (metadata, threshold-valued constraints; half of them with one-hot / SOS1 constraint hints naming active constraints) and a history of up to 8 (quick) / 24 (thorough) operations drawn from relax(id, reason, parameters) / restore(id) with ids from the active list, the removed list and unknown ids, interleaved with evaluate at one fixed in-bound state. After every operation the instance is compared with an executable two-map model: same (id, function, equality, metadata) collection, each id in exactly one list, reason/parameters recorded, failing operations leave the instance equal; across the history the per-constraint values and `feasible` are constant and `feasible_relaxed` equals the conjunction over the model's active set. Non-trivial = history with >= 2 successful moves; distinct = fingerprint of (instance, history)."
+        "each case: a generated valid instance with 1-7 constraints spread over the active and removed lists (metadata, threshold-valued constraints; half of them with one-hot / SOS1 constraint hints naming active constraints) and a history of up to 8 (quick) / 24 (thorough) operations drawn from relax(id, reason, parameters) / restore(id) with ids from the active list, the removed list and unknown ids, interleaved with evaluate at one fixed in-bound state and evaluate_samples over three fixed states under four sample ids (per-sample flags equal those of evaluate and stay constant); relax reasons include the empty string. After every operation the instance is compared with an executable two-map model: same (id, function, equality, metadata) collection, each id in exactly one list, reason/parameters recorded, failing operations leave the instance equal; across the history the per-constraint values and `feasible` are constant and `feasible_relaxed` equals the conjunction over the model's active set. Non-trivial = history with >= 2 successful moves; distinct = fingerprint of (instance, history)."
     }
     fn assumptions(&self) -> Vec<&'static str> {
         vec!["the order of constraints inside a list is not part of the property and is not compared", "feasibility is judged from the values the Solution itself reports (the values are checked by C05)"]
@@ -82,6 +84,9 @@ impl Property for C14 {
             mon.facet("no-constraints");
         }
         let st = gen_state_in_bounds(rng, &inst, None, regime);
+        let st2 = gen_state_in_bounds(rng, &inst, None, regime);
+        let st3 = gen_state_in_bounds(rng, &inst, None, regime);
+        let mut base_sample_flags: Option<BTreeMap<u64, bool>> = None;
         let max_len = match env.tier {
             Tier::Quick => 8,
             Tier::Thorough => 24,
@@ -106,15 +111,80 @@ impl Property for C14 {
                     for _ in 0..rng.below(3) {
                         p.insert(rng.ascii_word(3), rng.ascii_word(4));
                     }
-                    Op::Relax(id, format!("why{step}"), p)
+                    // the reason is whatever the caller gives, the empty string included
+                    let reason = match rng.below(6) {
+                        0 => String::new(),
+                        1 => " ".to_string(),
+                        _ => format!("why{step}"),
+                    };
+                    if rng.chance(1, 8) {
+                        p.insert(String::new(), String::new());
+                    }
+                    Op::Relax(id, reason, p)
                 }
                 4..=7 => {
                     let id = if all_ids.is_empty() || rng.chance(1, 6) { 9_000_000 + rng.below(5) } else { *rng.pick(&all_ids) };
                     Op::Restore(id)
                 }
-                _ => Op::Evaluate,
+                8 => Op::Evaluate,
+                _ => {
+                    if rng.bool() {
+                        Op::Evaluate
+                    } else {
+                        Op::EvaluateSamples
+                    }
+                }
             };
             mon.eval();
+            if let Op::EvaluateSamples = &op {
+                mon.facet("op:evaluate_samples");
+                let mut samples = v1::Samples::default();
+                samples.entries.push(crate::build::samples_entry(st.clone(), vec![0, 2]));
+                samples.entries.push(crate::build::samples_entry(st2.clone(), vec![4]));
+                samples.entries.push(crate::build::samples_entry(st3.clone(), vec![9]));
+                let per_state = [(0u64, &st), (2, &st), (4, &st2), (9, &st3)];
+                let r = probe(|| {
+                    let (ss, _) = inst.evaluate_samples(&samples).map_err(|e| format!("evaluate_samples: {e:#}"))?;
+                    let unrelaxed: BTreeMap<u64, bool> = ss.feasible_unrelaxed().iter().map(|(k, v)| (*k, *v)).collect();
+                    let relaxed: BTreeMap<u64, bool> = ss.feasible_relaxed().iter().map(|(k, v)| (*k, *v)).collect();
+                    let mut single = BTreeMap::new();
+                    for (id, s) in per_state {
+                        let (sol, _) = inst.evaluate(s).map_err(|e| format!("evaluate: {e:#}"))?;
+                        single.insert(id, (sol.feasible, sol.feasible_relaxed));
+                    }
+                    Ok::<_, String>((unrelaxed, relaxed, single))
+                });
+                match r {
+                    Err(p) => {
+                        mon.violation(format!("C14.panic:{}", panic_site(&p)), format!("evaluate_samples panicked: {}\n{}", p.message, ctx(&inst, &history)));
+                        return;
+                    }
+                    Ok(Err(e)) => {
+                        mon.violation("C14.evaluate-error", format!("{e}\n{}", ctx(&inst, &history)));
+                        return;
+                    }
+                    Ok(Ok((unrelaxed, relaxed, single))) => {
+                        for (id, (f, fr)) in &single {
+                            if unrelaxed.get(id) != Some(f) {
+                                mon.violation("C14.samples:feasible", format!("sample {id}: evaluate_samples reports feasible={:?}, evaluate of the same state {f}\n{}", unrelaxed.get(id), ctx(&inst, &history)));
+                            }
+                            if relaxed.get(id).copied() != *fr {
+                                mon.violation("C14.samples:feasible-relaxed", format!("sample {id}: evaluate_samples reports feasible_relaxed={:?}, evaluate of the same state {fr:?}\n{}", relaxed.get(id), ctx(&inst, &history)));
+                            }
+                        }
+                        match &base_sample_flags {
+                            None => base_sample_flags = Some(unrelaxed),
+                            Some(b) => {
+                                if b != &unrelaxed {
+                                    mon.violation("C14.samples:feasible-changed", format!("per-sample feasibility was {b:?}, now {unrelaxed:?}\n{}", ctx(&inst, &history)));
+                                }
+                            }
+                        }
+                    }
+                }
+                history.push((op, true));
+                continue;
+            }
             match &op {
                 Op::Evaluate => {
                     mon.facet("op:evaluate");
@@ -184,7 +254,7 @@ impl Property for C14 {
                 let r = match &op {
                     Op::Relax(id, reason, params) => i.relax_constraint(*id, reason.clone(), params.iter().map(|(k, v)| (k.clone(), v.clone())).collect::<HashMap<_, _>>()),
                     Op::Restore(id) => i.restore_constraint(*id),
-                    Op::Evaluate => unreachable!(),
+                    Op::Evaluate | Op::EvaluateSamples => unreachable!(),
                 };
                 (i, r.map_err(|e| format!("{e:#}")))
             });
@@ -199,7 +269,7 @@ impl Property for C14 {
             let expect_ok = match &op {
                 Op::Relax(id, ..) => matches!(model.get(id), Some((_, None))),
                 Op::Restore(id) => matches!(model.get(id), Some((_, Some(_)))),
-                Op::Evaluate => unreachable!(),
+                Op::Evaluate | Op::EvaluateSamples => unreachable!(),
             };
             let opname = match &op {
                 Op::Relax(..) => "relax",
@@ -235,7 +305,7 @@ impl Property for C14 {
                         Op::Restore(id) => {
                             model.get_mut(id).unwrap().1 = None;
                         }
-                        Op::Evaluate => {}
+                        Op::Evaluate | Op::EvaluateSamples => {}
                     }
                 }
             }
